@@ -43,7 +43,7 @@ def nodal_rows(snap, colmap=None):
 
 
 def run_case(rng, tier, case):
-    base = gen.gen_mixed_portfolio(rng, kinds=('contract', 'transport', 'transport', 'storage', 'storage', 'multi', 'orderbook', 'plant', 'chp', 'structured', 'scaled', 'coarse', 'periodic', 'coarse_pair'),
+    base = gen.gen_mixed_portfolio(rng, kinds=('contract', 'transport', 'transport', 'storage', 'storage', 'multi', 'orderbook', 'plant', 'chp', 'structured', 'scaled', 'coarse', 'periodic', 'coarse_pair', 'linked', 'chp_minload'),
                                    grid_kw={'steps': (4, 20)}, n_assets=(2, 5), n_nodes=(1, 3))
     spec = gen.strip_private(base)
     if rng.random() < 0.5:
@@ -72,7 +72,7 @@ def run_case(rng, tier, case):
             for k, v in maps['assets'].items(): rn[('a', k)] = v
             for k, v in maps['nodes'].items(): rn[('n', k)] = v
             # structured assets derive internal node names and variable names from asset names: compare those columns structurally only
-            has_struct = any('Structured' in t for t in gen.asset_types(spec))
+            has_struct = any(('Structured' in t or 'Linked' in t) for t in gen.asset_types(spec))
             d = problem_diff(p0, p1, rtol=0., compare_mapping=not has_struct, rename=rn)
             case.check('rename.problem_identical', d is None, renaming=maps, diff=d)
             if r0.solved and r1.solved:
